@@ -159,6 +159,7 @@ func (m *Manager) Connection(ctx context.Context, addr, dialer string) (conn *gr
 	default:
 		m.mu.Lock()
 		c, ok := m.conns[addr]
+		verifPoint("connection:locked")
 		if !ok {
 			c = newConnection(addr)
 			m.conns[addr] = c
